@@ -397,10 +397,12 @@ class Simplifier(pysmt.walkers.DagWalker):
         else:
             if len(new_args) == 0:
                 return const
-            elif not const.is_one():
-                new_args.append(const)
-
+        # The constant factor (if any) is kept last, whatever its node
+        # id: walk_plus looks for it there, and the result must not
+        # depend on whether the constant was created before the terms
         new_args = sorted(new_args, key=FNode.node_id)
+        if not const.is_one():
+            new_args.append(const)
         return self.manager.Times(new_args)
 
     def walk_pow(self, formula: FNode, args: List[FNode], **kwargs) -> FNode:
